@@ -52,6 +52,20 @@ def merge_headers(
     return default_headers + override_headers
 
 
+def without_target_extension(
+    extensions: typing.Mapping[str, typing.Any],
+) -> typing.Mapping[str, typing.Any]:
+    """
+    The "target" request extension has already been applied to the URL of the
+    request it was given with. It must not rewrite the request line of the
+    request that is sent to the proxy on its behalf: the absolute URL of a
+    forwarded request, or the "host:port" of a CONNECT request.
+    """
+    if "target" not in extensions:
+        return extensions
+    return {key: value for key, value in extensions.items() if key != "target"}
+
+
 class AsyncHTTPProxy(AsyncConnectionPool):  # pragma: nocover
     """
     A connection pool that sends requests via an HTTP proxy.
@@ -202,7 +216,7 @@ class AsyncForwardHTTPConnection(AsyncConnectionInterface):
             url=url,
             headers=headers,
             content=request.stream,
-            extensions=request.extensions,
+            extensions=without_target_extension(request.extensions),
         )
         return await self._connection.handle_async_request(proxy_request)
 
@@ -288,7 +302,7 @@ class AsyncTunnelHTTPConnection(AsyncConnectionInterface):
                     method=b"CONNECT",
                     url=connect_url,
                     headers=connect_headers,
-                    extensions=request.extensions,
+                    extensions=without_target_extension(request.extensions),
                 )
                 connect_response = await self._connection.handle_async_request(
                     connect_request
